@@ -178,6 +178,60 @@ def h_length(ctx, high):
     ctx.vc("L <= 2 pi a (circumscribed circle)", L <= 2 * pi * a)
 
 
+# ---- node passages: the true anomaly at the node and the two-body relations that turn it into a time
+@P.harness("passage_nodes/true-anomaly-at-the-node", cases=[dict(fn="passage_nodes_elliptic", ascending=True),
+                                                            dict(fn="passage_nodes_elliptic", ascending=False),
+                                                            dict(fn="passage_nodes_parabolic", ascending=True),
+                                                            dict(fn="passage_nodes_parabolic", ascending=False)],
+           contracts=lambda: {ANGLE + ".reduce_deg": contract_reduce_deg, "pymeeus.Epoch:Epoch": _epoch_contract},
+           axioms=("pi", "sqrt"), functions=[COORD + "passage_nodes_elliptic", COORD + "passage_nodes_parabolic"], crosscheck=0,
+           timeout=60, branch_timeout_ms=300)
+def h_nodes(ctx, fn, ascending):
+    """at the ascending node the true anomaly is -omega, at the descending one 180 - omega (mod 360): the half angle handed to
+    tan() is that anomaly / 2 (mod 180 degrees); elliptic: tan(E/2) = sqrt((1-e)/(1+e)) tan(v/2), M = E - e sin E, t = T + M/n with
+    n = 0.9856076686 / (a sqrt a) degrees per day, r = a (1 - e cos E); parabolic: s = tan(v/2), t = T + 27.403895 s (s^2 + 3) q sqrt q,
+    r = q (1 + s^2) (Meeus ch. 39)"""
+    from pyvc.api import atan_
+    if ctx.native:
+        return
+    om, w = angle(ctx, "omega")
+    T = ctx.real("T", 990000, 3200000)
+    t = ctx.obj("Epoch")
+    ctx.setfield(t, "_jde", T)
+    if fn == "passage_nodes_elliptic":
+        e = ctx.real("e", 0, 1, hi_open=True)
+        a = ctx.real("a", Fraction(1, 10), 100)
+        out = ctx.call(COORD + fn, om, e, a, t, ascending)
+    else:
+        q = ctx.real("q", Fraction(1, 10), 100)
+        out = ctx.call(COORD + fn, om, q, t, ascending)
+    (half,), = ctx.uf_terms("tan")[-1:]
+    pi = pi_()
+    want = (-w) if ascending else (180 - w)
+    k = (half * 360 / pi - want) / 360
+    ctx.vc("tan() is taken of half the true anomaly of the node, %s (mod 360 degrees)" % ("-omega" if ascending else "180 - omega"),
+           k == floor_(k))
+    tt, r = Num.of(ctx.field(out[0], "_jde")), Num.of(out[1])
+    th = tan_(half)
+    if fn == "passage_nodes_elliptic":
+        (arg,), = ctx.uf_terms("atan")[-1:]
+        ctx.vc("tan(E/2) == sqrt((1 - e)/(1 + e)) tan(v/2)", arg == sqrt_((1 - e) / (1 + e)) * th)
+        E = 2 * atan_(arg)
+        M = E - e * sin_(E)
+        n = Num.of(Fraction("0.9856076686")) / (a * sqrt_(a))
+        ctx.vc("t == T + degrees(E - e sin E) / n,  n = 0.9856076686 / (a sqrt a)", tt == T + (M * 180 / pi) / n)
+        ctx.vc("r == a (1 - e cos E)", r == a * (1 - e * cos_(E)))
+    else:
+        ctx.vc("t == T + 27.403895 s (s^2 + 3) q sqrt q,  s = tan(v/2)", tt == T + Num.of(Fraction("27.403895")) * th * (th * th + 3) * q * sqrt_(q))
+        ctx.vc("r == q (1 + s^2)", r == q * (1 + th * th))
+    ctx.vc("arguments unchanged", and_(ctx.field(om, "_deg") == w, ctx.field(t, "_jde") == T))
+
+
+def _epoch_contract(it, cref, args, kwargs):
+    from pyvc.interp import SObj
+    return SObj("Epoch", {"_jde": Num.of(args[0]) if args else Num.of(0.0)})
+
+
 @P.harness("length_orbit/continuous-at-the-switch", axioms=("sqrt",), functions=[COORD + "length_orbit"], crosscheck=0, timeout=120)
 def h_length_switch(ctx):
     """the two approximations meet at the switch: for a = 1 the value just below e = 0.95 (0.95 - 1e-12, first formula) and the
